@@ -168,6 +168,10 @@ func (p *provider) watchChanges(ctx context.Context, rsf RuleSetFetcher) error {
 		if errors.Is(err, heimdall.ErrInternal) || errors.Is(err, heimdall.ErrConfiguration) {
 			return err
 		}
+
+		// network issues, like dns errors, timeouts and alike. The previously
+		// received rule sets (if any) are preserved
+		return nil
 	}
 
 	state := p.getBucketState(rsf.ID())
